@@ -14,6 +14,7 @@ import (
 	"context"
 	"encoding/json"
 	"errors"
+	"flag"
 	"fmt"
 	"io"
 	"log/slog"
@@ -85,9 +86,10 @@ type c09World struct {
 	askResume chan struct{}
 	askAnswer chan bool
 	slowUsed  bool
-	docOwner  map[int]int               // directory -> instance whose checkpoints document is there now
-	creator   map[string]int            // table uri -> instance that wrote it
+	docOwner  map[int]int                     // directory -> instance whose checkpoints document is there now
+	creator   map[string]int                  // table uri -> instance that wrote it
 	walSig    map[c09Handle]map[string]string // handle -> WAL path -> content signature when the handle was taken
+	hFiles    map[c09Handle][2][]string       // handle -> (tables, WALs) its document entry listed when it was taken
 }
 
 func (w *c09World) dirOf(idx int) int {
@@ -554,7 +556,8 @@ func runC09(c lib.Case) []string {
 	c09ForceGC(5 * time.Second)
 	c09Seq++
 	dir := fmt.Sprintf("c09-%d", c09Seq)
-	w := &c09World{nextID: 1, docOwner: map[int]int{}, creator: map[string]int{}, walSig: map[c09Handle]map[string]string{}}
+	w := &c09World{nextID: 1, docOwner: map[int]int{}, creator: map[string]int{}, walSig: map[c09Handle]map[string]string{},
+		hFiles: map[c09Handle][2][]string{}}
 	if c09Field(hf, "fs") == "local" {
 		base := os.TempDir()
 		if st, err := os.Stat("/dev/shm"); err == nil && st.IsDir() {
@@ -897,6 +900,7 @@ func runC09(c lib.Case) []string {
 				sigs[wl] = w.sig(wl)
 			}
 			w.walSig[c09Handle{x.idx, id}] = sigs
+			w.hFiles[c09Handle{x.idx, id}] = [2][]string{uris, wals}
 			x.ckptIDs = append(x.ckptIDs, id)
 			if id >= w.nextID {
 				w.nextID = id + 1
@@ -1167,8 +1171,10 @@ func runC09(c lib.Case) []string {
 			for _, h := range w.retained {
 				_, uris, wals, ok := w.docEntryAny(h.writer, h.id)
 				if !ok {
+					// the document entry is gone (D50); the files it listed when it was written are still what the
+					// retained checkpoint needs
 					miss[fmt.Sprintf("doc:i%d:%d", h.writer, h.id)] = true
-					continue
+					uris, wals = w.hFiles[h][0], w.hFiles[h][1]
 				}
 				for _, u := range uris {
 					if !have[u] {
@@ -1571,8 +1577,14 @@ func genC09(r *lib.Rng, tier string) lib.Case {
 					dir = d
 					dirTaken[d] = true
 					// the new instance's first save replaces the directory's checkpoints document by its own list, which
-					// starts at the restored checkpoint (open finding D50): the job keeps no older checkpoint here
-					g.jobdrop(id - 1)
+					// starts at the restored checkpoint, so older retained checkpoints of the directory lose their entry
+					// (finding D50). While D50 is not listed in known_findings.json the generated jobs keep no older
+					// checkpoint at such a restore (EXCLUDED from generated cases until then: a same-directory restore while
+					// the job retains an older checkpoint of that directory); once it is listed the situation is generated
+					// and reported as KNOWN-FINDING D50, and the witness below runs as a fixed case.
+					if !c09D50Listed {
+						g.jobdrop(id - 1)
+					}
 				}
 			}
 			g.open(rg[0], rg[1], gen+1, g.nbrsOf(nrs, k), fmt.Sprintf("%s:%d", strings.Join(src, "+"), id), id, host, dir)
@@ -1594,8 +1606,31 @@ func genC09(r *lib.Rng, tier string) lib.Case {
 	return lib.Case{Header: header, Ops: g.ops}
 }
 
+// c09D50Listed: known_findings.json lists D50 as an open finding of C09 (set in propC09 from the -verif flag)
+var c09D50Listed bool
+
+func c09FindingListed(id string) bool {
+	dir := "/verif"
+	if f := flag.Lookup("verif"); f != nil {
+		dir = f.Value.String()
+	}
+	for _, k := range lib.LoadKnown(dir) {
+		if k.Property == "C09" && k.ID == id && k.Status == "open" {
+			return true
+		}
+	}
+	return false
+}
+
 func c09Fixed(tier string) []lib.Case {
 	cases := c09FixedAll()
+	if c09D50Listed {
+		// D50 witness: the instance reopened in its predecessor's directory saves a document that starts at the
+		// restored checkpoint 2; the entry of checkpoint 1, which the job still retains, is gone
+		cases = append(cases, lib.Case{Header: "M C09 mem=120 l0=2", Tags: []string{"witness-D50"}, Ops: []string{
+			"open 0-8 gen=0 nbrs=- from=none", "write 0 8 1 0-7", "ckpt 0 1", "write 0 8 2 0-7", "ckpt 0 2", "crash 0",
+			"open 0-8 gen=1 nbrs=- from=0:2 dir=0", "missing", "write 1 8 3 0-7", "ckpt 1 3", "missing"}})
+	}
 	if tier == "thorough" {
 		// a neighbour that needs the table answers only after 6.5 s: with the unchanged code the cleanup waits and
 		// keeps the file (any deadline in ExclusivelyOwnsTable shorter than that turns the silence into a "no")
@@ -1668,6 +1703,7 @@ func c09FixedAll() []lib.Case {
 }
 
 func propC09() *lib.Prop {
+	c09D50Listed = c09FindingListed("D50")
 	return &lib.Prop{
 		ID:       "C09",
 		Corr:     "Model/Files.lean transition system ↔ real dkv.DB instances (table cleanups under forced GC, CheckpointList retention, OperatorPartition.ExclusivelyOwnsTable with scripted/real neighbours)",
